@@ -339,7 +339,7 @@ def prop_C06(repo, tier):
     stale_cache(res, repo, merges=True)
     from . import rules_shape as _rs
     _rs.no_shared_memo(res, program(repo))
-    res.floors = {'MISS-REPORTED': 22, 'WARN-CATEGORY': 5}
+    res.floors = {'MISS-REPORTED': 22, 'WARN-CATEGORY': 2}
     res.explanation = (
         'Static analysis of every merge: each id-keyed lookup miss (and each duplicate-story test) creates a pending report that must '
         'be cleared by raise MosMergeError or by exactly one warnings.warn of the matching category before the merge returns; a '
